@@ -164,6 +164,13 @@ def render(objs, kind, conf, nocolor, mode):
         if kind == 'ghist':
             return objs.ghist.ch_text(colors_conf=conf, no_color=nocolor)
         return objs.leadblank.ch_text(colors_conf=conf, no_color=nocolor)
+    if mode == 'palobj':
+        # the colours are given as a ready palette object (made for the configuration) plus no_color
+        target = {'pp': objs.pp, 'table': objs.table, 'table2': objs.table2, 'table4': objs.table4, 'ghist': objs.ghist}.get(kind, objs.leadblank)
+        pal = type(target).PALETTE_CLASS(conf)
+        if kind == 'pp':
+            return str(objs.pp(objs.value, palette=pal, no_color=nocolor))
+        return str(target.ch_text(palette=pal, no_color=nocolor))
     res = start(conf, nocolor)
     if mode == 'whole':
         return str(res)
@@ -204,7 +211,7 @@ def _other_conf():
     return _OTHER[0]
 
 
-LINE_MODES = ('lines', 'collect', 'inter1', 'inter2')
+LINE_MODES = ('lines', 'collect', 'inter1', 'inter2', 'palobj')
 
 
 def render_linewise(objs, kind, conf, nocolor, whole):
